@@ -15,6 +15,7 @@ use serde_json::{json, Value};
 
 use super::{str_field, Fail};
 use crate::gen;
+use crate::hist::Hist;
 use crate::obs::{self, guard, Ctx, Out, Snap, Tier};
 use crate::rng::fnv;
 use crate::shrink::shrink_str;
@@ -33,6 +34,7 @@ pub fn requirements(tier: Tier) -> Vec<(&'static str, u64)> {
         ("non-string-values-refused", 400),
         ("typed-instantiation", 50_000),
         ("long-strings", 25),
+        ("built-values-round-tripped", 10_000),
     ]
 }
 
@@ -536,6 +538,30 @@ pub fn run(ctx: &mut Ctx) {
             one(ctx, "Purl", &s);
         }
     }
+    // built values
+    let mut r = ctx.rng("c16.built");
+    for i in 0..ctx.share(60_000, 2_000_000) {
+        let typed = i % 2 == 1;
+        let h = match i % 3 {
+            0 => crate::hist::stale_hist(&mut r, typed),
+            _ => crate::hist::rand_hist(&mut r, typed),
+        };
+        ctx.st.evaluations += 1;
+        let (built, f) = judge_built(&h, typed);
+        if built {
+            ctx.st.count("built-values-round-tripped");
+        }
+        if let Some(f) = f {
+            let (kind, tag) = (f.kind.clone(), f.tag.clone());
+            let calls = crate::shrink::shrink_vec(&h.calls, &mut |cs| {
+                let hh = Hist { ty: h.ty.clone(), name: h.name.clone(), calls: cs.to_vec() };
+                judge_built(&hh, typed).1.map_or(false, |g| g.kind == kind && g.tag == tag)
+            });
+            let hh = Hist { ty: h.ty.clone(), name: h.name.clone(), calls };
+            let g = judge_built(&hh, typed).1.unwrap_or(f);
+            ctx.st.violation("C16.serde", format!("C16.serde:{}:{}", g.kind, g.tag), g.detail, json!({"kind": "built", "typed": typed, "history": hh}));
+        }
+    }
     let (corpus, _) = gen::load_corpus();
     let mut r = ctx.rng("c16.g10");
     for _ in 0..ctx.share(60_000, 2_000_000) {
@@ -545,7 +571,60 @@ pub fn run(ctx: &mut Ctx) {
     }
 }
 
+/// A PURL made by the builder survives the JSON round trip: its serde form is its canonical
+/// string, and that string deserialises (to what parsing it gives, printing the same).
+pub fn judge_built(h: &Hist, typed: bool) -> (bool, Option<Fail>) {
+    fn go<T>(p: &GenericPurl<T>, h: &Hist) -> Option<Fail>
+    where
+        T: FromStr + PurlShape + PartialEq + Clone + Debug,
+        <T as PurlShape>::Error: From<<T as FromStr>::Err> + Debug + Display,
+        GenericPurl<T>: DeserializeOwned + Serialize,
+    {
+        let c = match obs::show(p) {
+            Out::Ok(c) => c,
+            o => return Some(Fail::new("format-panicked", o.kind())),
+        };
+        let js = match guard("serde_json::to_string", || serde_json::to_string(p)) {
+            Out::Ok(Ok(js)) => js,
+            o => return Some(Fail::tagged("serialise-failed", "built", format!("history {h:?}: {:?}", o.map(|r| r.map_err(|e| e.to_string()))))),
+        };
+        if js != serde_json::to_string(&c).expect("string to json") {
+            return Some(Fail::tagged("serialised-form-differs", "built", format!("history {h:?}: serialised as {js}, canonical string {c:?}")));
+        }
+        match guard("serde_json::from_str", || serde_json::from_str::<GenericPurl<T>>(&js)) {
+            // (a built PURL may hold a namespace or subpath with empty or dot pieces, which
+            // its text keeps and the parser drops: "unchanged" is judged on what the parser
+            // makes of the text, not on the stored pieces)
+            Out::Ok(Ok(q)) => match obs::parse::<T>(&c) {
+                Out::Ok(d) if d == q => None,
+                o => Some(Fail::tagged("json-round-trip", "built", format!("history {h:?}: {js} deserialises to {:?}, from_str of the same text gives {}", Snap::of(&q), o.kind()))),
+            },
+            Out::Ok(Err(e)) => Some(Fail::tagged("json-round-trip", "built", format!("history {h:?}: the built PURL serialises as {js}, which does not deserialise: {e}"))),
+            o => Some(Fail::tagged("panicked", o.kind(), format!("deserialising {js}: {}", o.kind()))),
+        }
+    }
+    if typed {
+        let Some(run) = crate::exec::run_hist::<PackageType>(h, &crate::exec::mk_typed) else { return (false, None) };
+        let Some(b) = run.builder else { return (false, None) };
+        match obs::build(b) {
+            Out::Ok(p) => (true, go(&p, h)),
+            _ => (false, None),
+        }
+    } else {
+        let Some(run) = crate::exec::run_hist::<String>(h, &crate::exec::mk_string) else { return (false, None) };
+        let Some(b) = run.builder else { return (false, None) };
+        match obs::build(b) {
+            Out::Ok(p) => (true, go(&p, h)),
+            _ => (false, None),
+        }
+    }
+}
+
 pub fn replay(_monitor: &str, case: &Value) -> Result<Option<Fail>, String> {
+    if case.get("kind").and_then(|v| v.as_str()) == Some("built") {
+        let h: Hist = serde_json::from_value(case.get("history").cloned().unwrap_or(Value::Null)).map_err(|e| e.to_string())?;
+        return Ok(judge_built(&h, case.get("typed").and_then(|v| v.as_bool()).unwrap_or(false)).1);
+    }
     match str_field(case, "kind")? {
         "string" => Ok(judge_dyn(str_field(case, "instantiation")?, str_field(case, "input")?).1),
         "battery" => Ok(match str_field(case, "instantiation")? {
